@@ -229,7 +229,7 @@ Verdict check_alloc(const Plan& plan, Stats& st) {
     if (!g.abort_run && !has_relevant()) {
         int n = (int)plan.ops.size();
         for (int k = 0; k < 8 && !g.abort_run; k++) if (h[k].live) {
-            bool ok; unsigned char* p = h[k].p; select_mgr(k);
+            bool ok = true; (void)ok; unsigned char* p = h[k].p; select_mgr(k);
             call_begin(n, -1, mid, FaultPlan()); LIBCALL_RUN({ mem->free(mem, p); }, ok); call_end();
             h[k].live = false;
         }
